@@ -132,7 +132,7 @@ Definition went := (bytes * bytes * list bytes)%type.
 Definition write_entry (e : went) : bytes :=
   let '(name, low, vals) := e in
   let v := join_byte 0 vals in
-  be32 (u32 (blen name)) ++ low ++ be32 (u32 (blen v)) ++ v.     (* len(name) is written BEFORE ToLower *)
+  be32 (u32 (blen low)) ++ low ++ be32 (u32 (blen v)) ++ v.     (* length of the lower-cased name (after the fix in /repo; it used to be len(name) before ToLower) *)
 Definition write_block (es : list went) : bytes :=
   be32 (u32 (Z.of_nat (length es))) ++ concat (map write_entry es).
 (* the int n returned by writeHeaderValueBlock *)
